@@ -86,6 +86,65 @@ def fn_body(src, sig_re):
 
 
 GUARD_RE = re.compile(r'^\s*if\s*\(\s*frame\s*\.\s*Sandboxed\s*\)\s*\{?\s*(BOOST_THROW_EXCEPTION\s*\(|throw\b)')
+SANDBOXED_RE = re.compile(r'^\(*\s*frame\s*\.\s*Sandboxed\s*\)*$')
+
+
+def split_top(s, op):
+    """split an expression at the top-level occurrences of the binary operator `op` (&& or ||)"""
+    out, depth, cur, i = [], 0, '', 0
+    while i < len(s):
+        c = s[i]
+        if c in '([{':
+            depth += 1
+        elif c in ')]}':
+            depth -= 1
+        if depth == 0 and s.startswith(op, i):
+            out.append(cur.strip())
+            cur = ''
+            i += len(op)
+            continue
+        cur += c
+        i += 1
+    out.append(cur.strip())
+    return out
+
+
+def strip_parens(s):
+    s = s.strip()
+    while s.startswith('(') and balanced(s, 0) == len(s):
+        s = s[1:-1].strip()
+    return s
+
+
+def guard_kind(b):
+    """how does a DoEvaluate body BEGIN: ('always', '') = `if (frame.Sandboxed) throw` (also `frame.Sandboxed || x`);
+    ('cond', text) = `if (frame.Sandboxed && <text>) throw` - the test on Sandboxed is there, but it only fires under a
+    further condition; ('none', '')"""
+    m = re.match(r'\s*if\s*\(', b)
+    if not m:
+        return 'none', ''
+    e = balanced(b, m.end() - 1)
+    cond = b[m.end():e - 1]
+    if not re.match(r'\s*\{?\s*(BOOST_THROW_EXCEPTION\s*\(|throw\b)', b[e:]):
+        return 'none', ''
+    cond = strip_parens(cond)
+    ors = split_top(cond, '||')
+    if any(SANDBOXED_RE.match(strip_parens(x)) for x in ors):
+        return 'always', ''          # `Sandboxed` alone, or as one alternative of a disjunction: fires whenever sandboxed
+    if len(ors) > 1:
+        return 'none', ''
+    ands = [strip_parens(x) for x in split_top(cond, '&&')]
+    if not any(SANDBOXED_RE.match(x) for x in ands):
+        return 'none', ''
+    rest = [x for x in ands if not SANDBOXED_RE.match(x)]
+    return ('cond', ' && '.join(re.sub(r'\s+', ' ', x) for x in rest)) if rest else ('always', '')
+
+
+def collections_counter(items):
+    out = {}
+    for x in items:
+        out[x] = out.get(x, 0) + 1
+    return out
 
 
 def coqs(s):
@@ -117,6 +176,43 @@ def run(rd, emit, log, enum_values, ti_default):
         return is_expr(parents[c], seen + (c,))
     exprs = []
     mids = []
+    gconds = []
+    yy = strip_comments(rd('lib/config/config_parser.yy'))
+
+    def cond_meaning(cls, ctext):
+        """what the model understands of the further condition of a conditional guard.  Recognised: `m_F` / `!m_F` where m_F is
+        a bool member of the class (default false) whose ONLY assignment anywhere in expression.cpp/.hpp/config_parser.yy is
+        `<SetExpression *>->m_F = (scopeSpec == ScopeThis)` inside icinga::BindToScope, i.e. the flag says "BindToScope(..,
+        ScopeThis) visited this node" = direct member of a dictionary literal.  Everything else: "unknown" (= not a guard)."""
+        m = re.match(r'^(!?)\s*(?:this\s*->\s*)?(m_\w+)$', ctext)
+        if not m or cls != 'SetExpression':
+            return 'unknown'
+        neg, flag = m.group(1), m.group(2)
+        mc = re.search(r'class\s+' + cls + r'\b', hpp)
+        cb = hpp[mc.end():balanced(hpp, hpp.index('{', mc.end()), '{', '}')] if mc else ''
+        if not re.search(r'\bbool\s+' + flag + r'\s*(\{\s*false\s*\}|=\s*false)\s*;', cb):
+            return 'unknown'
+        sites = []
+        for src in (cpp, hpp, yy):
+            for a in re.finditer(r'\b' + flag + r'\s*(?:=(?!=)|\(|\{)\s*([^;]*);', src):
+                ls = src.rfind('\n', 0, a.start()) + 1
+                if re.match(r'\s*bool\s+$', src[ls:a.start()]):
+                    continue        # the declaration with its default
+                sites.append((src, a.start(), re.sub(r'\s+', '', a.group(1))))
+        if len(sites) != 1 or sites[0][0] is not cpp:
+            return 'unknown'
+        _, pos, rhs = sites[0]
+        bb = re.search(r'void\s+icinga::BindToScope\s*\(', cpp)
+        if not bb:
+            return 'unknown'
+        b0 = cpp.index('{', bb.end())
+        b1 = balanced(cpp, b0, '{', '}')
+        if not (b0 < pos < b1) or rhs.rstrip(')').lstrip('(') != 'scopeSpec==ScopeThis':
+            return 'unknown'
+        pre = cpp[b0:pos]
+        if not re.search(r'dynamic_cast\s*<\s*SetExpression\s*\*\s*>', pre) or not re.search(r'(\w+)\s*->\s*$', cpp[:pos][-40:]):
+            return 'unknown'
+        return 'unless-dict-member' if neg else 'if-dict-member'
     for c in sorted(k for k in parents if is_expr(k)):
         b = fn_body(cpp, r'ExpressionResult\s+' + c + r'::DoEvaluate\s*\(')
         if b is None:
@@ -128,15 +224,43 @@ def run(rd, emit, log, enum_values, ti_default):
         if b is None:
             continue            # abstract helper class (Debuggable/Unary/Binary)
         short = c
-        g = bool(GUARD_RE.match(b))
+        kind, ctext = guard_kind(b)
+        g = kind == 'always'
         exprs.append((short, g))
+        if kind == 'cond':
+            gconds.append((short, ctext, cond_meaning(short, ctext)))
         if (not g) and re.search(r'\bSandboxed\b', b):
             mids.append(short)
     if not exprs:
         log.append('C19: no Expression subclass recognised')
-    body += '(* (class name, DoEvaluate begins with `if (frame.Sandboxed) throw`) *)\n'
+    body += '(* (class name, DoEvaluate begins with the UNCONDITIONAL guard `if (frame.Sandboxed) throw`) *)\n'
     body += 'Definition f_sb_exprs : list (string * bool) := %s.\n\n' % blist(
         ['(%s, %s)' % (coqs(n), 'true' if g else 'false') for n, g in exprs])
+    body += ('(* CONDITIONAL guards `if (frame.Sandboxed && <cond>) throw`: (class name, (<cond>, what the model understands of it:\n'
+             '   "unless-dict-member" / "if-dict-member" = a flag set only by BindToScope(.., ScopeThis) on SetExpressions, else "unknown")) *)\n')
+    body += 'Definition f_sb_guard_conds : list (string * (string * string)) := %s.\n\n' % blist(
+        ['(%s, (%s, %s))' % (coqs(n), coqs(re.sub(r'(?i)\b(admit|admitted|axiom|axioms|parameter|parameters|conjecture|hypothesis|variable)\b', lambda m_: m_.group(0)[0] + '_' + m_.group(0)[1:], t)), coqs(k)) for n, t, k in gconds])
+    for n, t, k in gconds:
+        log.append('C19: %s::DoEvaluate: the sandbox guard is CONDITIONAL (`Sandboxed && %s`), understood as: %s' % (n, t, k))
+    # icinga::BindToScope has the structure the model transcribes in sb_bind_scope: Dict -> members, Set -> Operand1,
+    # Indexer -> Operand1, string literal / variable -> rebased onto the scope; nothing else
+    bts = fn_body(cpp, r'void\s+icinga::BindToScope\s*\(') or ''
+    casts = re.findall(r'dynamic_cast\s*<\s*(\w+)\s*\*\s*>', bts)
+    bts_ok = (casts == ['DictExpression', 'SetExpression', 'IndexerExpression', 'LiteralExpression', 'VariableExpression'] and
+              len(re.findall(r'BindToScope\s*\(', bts)) == 3 and
+              bool(re.search(r'BindToScope\s*\(\s*aexpr\s*->\s*m_Operand1\s*,\s*scopeSpec\s*\)', bts)) and
+              bool(re.search(r'BindToScope\s*\(\s*iexpr\s*->\s*m_Operand1\s*,\s*scopeSpec\s*\)', bts)) and
+              len(re.findall(r'new\s+GetScopeExpression\s*\(\s*scopeSpec\s*\)', bts)) == 2 and
+              bool(re.search(r'lexpr\s*&&\s*lexpr\s*->\s*GetValue\s*\(\s*\)\s*\.\s*IsString\s*\(\s*\)', bts)))
+    body += '(* icinga::BindToScope: Dict -> members, Set -> left-hand side, Indexer -> first operand, string literal / bare identifier -> scope.<name> *)\n'
+    body += 'Definition f_sb_bind_to_scope_shape : bool := %s.\n' % ('true' if bts_ok else 'false')
+    if not bts_ok:
+        log.append('C19: icinga::BindToScope no longer has the shape transcribed in sb_bind_scope (casts: %s)' % casts)
+    dm = re.search(r'rterm_no_side_effect\s*:(.*?)\n\s*;', yy, re.S)
+    dict_bound = bool(dm and re.search(r'\|\s*rterm_dict[^{|]*\{[^|]*?BindToScope\s*\(\s*expr\s*,\s*ScopeThis\s*\)', dm.group(1), re.S)) and \
+        len(re.findall(r'BindToScope\s*\([^)]*ScopeThis\s*\)', yy)) == 1
+    body += '(* config_parser.yy: the only BindToScope(.., ScopeThis) is the one over a dictionary literal used as a value (rterm_dict) *)\n'
+    body += 'Definition f_sb_dict_members_bound : bool := %s.\n\n' % ('true' if dict_bound else 'false')
 
     # ---------------------------------------------------------------- registered functions
     funcs = {}     # name -> (lib, safe, cppname, file)
@@ -412,6 +536,22 @@ def run(rd, emit, log, enum_values, ti_default):
     fh = strip_comments(rd('lib/base/function.hpp'))
     B('f_sb_function_default_unsafe', bool(re.search(r'bool\s+side_effect_free\s*=\s*false', fh)),
       'Function constructor: side_effect_free defaults to false')
+
+    # the Sandboxed flag of a frame is written only where frames are set up: every assignment to (or non-const handle on) a
+    # member called Sandboxed anywhere under lib/ - the model treats the flag of a frame as immutable during evaluation
+    sw = []
+    for rel in sorted(texts):
+        t = texts[rel]
+        for m in re.finditer(r'\bSandboxed\s*(=(?!=)|[-+|&^]=|\+\+|--)|(\+\+|--)\s*[\w.>-]*\bSandboxed\b|&\s*[\w.>()-]*\bSandboxed\b(?!\s*&&)|'
+                             r'std::(?:swap|exchange)\s*\([^;]*\bSandboxed\b', t):
+            pre = t[max(0, m.start() - 3):m.start()]
+            if m.group(0).startswith('&') and (pre.rstrip().endswith('&') or re.search(r'[\w)\]]\s*$', pre)):
+                continue            # `a && b.Sandboxed`, `x & y.Sandboxed`: operators, not address-of
+            sw.append(rel)
+    sw_counts = collections_counter(sw)
+    body += '(* files under lib/ with an assignment to / a handle on a member named Sandboxed: (file, number of sites) *)\n'
+    body += 'Definition f_sb_sandboxed_writes : list (string * Z) := %s.\n\n' % blist(
+        ['(%s, %d)' % (coqs(f), n) for f, n in sorted(sw_counts.items())])
 
     # does the console handler hand the result back with ALL fields (Serialize(exprResult, 0)), or does it pass its
     # sandboxed flag on so that no_user_view fields are left out
